@@ -621,16 +621,20 @@ def run(tier):
     rep.floor("explicit indentation cases", blockindent.check(rep, F), 80)
     rep.floor("end-of-input tests that append the implied final break", blockindent.implied_final_break(rep, F), 1)
     breaks_are_single_line_feeds(rep, F)
+    # the rest of the header line (blanks and a comment) is skipped with Input::skip_ws_to_eol: what the string back-end's override takes for
+    # "the rest of the line" must be what the provided body takes (a comment that runs over a lone CR swallows content lines) - C10's clause
+    from . import C10 as _C10
+    _C10.skip_ws_to_eol_agreement(rep, F, tier, "header-line-skip-agreement")
     return rep
 
 
-def breaks_are_single_line_feeds(rep, F, rule="break-consumed-as-a-whole"):
+def breaks_are_single_line_feeds(rep, F, rule="break-consumed-as-a-whole", roots=None, what="a block scalar", floor=3):
     """'reports its content lines verbatim', 'keeps blank lines': a line break of the input (LF, CR or CR LF) is one break of the scalar.  The
     functions of the block-scalar family consume breaks only through the helpers that take a CR LF pair as a whole (read_break, skip_break,
     skip_linebreak); a direct skip_nl - which moves over one character - counts CR LF as two breaks (blank lines are doubled)."""
     S_ = SCANNER + "::"
     helpers = {S_ + "read_break", S_ + "skip_break", S_ + "skip_linebreak", S_ + "skip_nl"}
-    fam, work = set(), [FN]
+    fam, work = set(), list(roots or [FN])
     while work:
         k = work.pop()
         if k in fam or k in helpers or k not in F.fns:
@@ -646,8 +650,8 @@ def breaks_are_single_line_feeds(rep, F, rule="break-consumed-as-a-whole"):
         n += len(whole)
         for bb, t, ck, fr in g.calls():
             if ck == S_ + "skip_nl":
-                rep.bad(rule, short(k), "a line break inside a block scalar is consumed with skip_nl (one character) instead of read_break / skip_break: a CR LF "
-                        "pair counts as two breaks", site=site(g, t["sp"]))
+                rep.bad(rule, short(k), "a line break inside %s is consumed with skip_nl (one character) instead of read_break / skip_break: a CR LF "
+                        "pair counts as two breaks" % what, site=site(g, t["sp"]))
         if whole:
             rep.ok(rule, short(k))
-    rep.floor("break-consuming calls in the block scalar functions", n, 3)
+    rep.floor("break-consuming calls in the functions that scan %s" % what, n, floor)
